@@ -29,7 +29,13 @@ theorem scanStep_inv (c : Char) (s : StrScan) (h : s.Inv) : (scanStep c s).Inv :
   obtain ⟨hp, hb⟩ := h
   unfold scanStep
   by_cases hbs : s.backSlash = true
-  · rw [if_pos hbs]; exact ⟨hp, hb⟩
+  · rw [if_pos hbs]
+    refine ⟨hp, ?_⟩
+    intro hle
+    simp only at hle ⊢
+    unfold curExprOf
+    have hnp : ¬ s.build > 0 := by omega
+    rw [if_neg hnp]; exact hb hle
   · rw [if_neg hbs]
     by_cases hd : exprDone c s = true
     · rw [if_pos hd]
@@ -67,7 +73,7 @@ theorem curExprOf_len (c : Char) (s : StrScan) : (curExprOf c s).length ≤ s.cu
 theorem scanStep_curExpr_len (c : Char) (s : StrScan) : (scanStep c s).curExpr.length ≤ s.curExpr.length + 1 := by
   unfold scanStep
   by_cases hbs : s.backSlash = true
-  · rw [if_pos hbs]; simp
+  · rw [if_pos hbs]; exact curExprOf_len c s
   · rw [if_neg hbs]
     by_cases hd : exprDone c s = true
     · rw [if_pos hd]; simp
